@@ -185,6 +185,15 @@ theorem normalise_isProb (q : List Rat) (hq : ∀ x ∈ q, 0 ≤ x) (hs : 0 < q.
 
 theorem normalise_length (q : List Rat) : (normalise q).length = q.length := by simp [normalise]
 
+theorem padTo_isProb (n : Nat) (q : List Rat) (h : IsProb q) : IsProb (padTo n q) := by
+  unfold padTo
+  constructor
+  · intro x hx
+    rcases List.mem_append.mp hx with h1 | h1
+    · exact h.1 x h1
+    · rw [List.eq_of_mem_replicate h1]
+  · rw [List.sum_append, h.2]; simp
+
 /-! ### field equations of `finish` / `iter` -/
 
 theorem iter_stop (P : Params) (O : Oracles) (s : State) (h : (s.done || decide (P.maxIter ≤ s.t)) = true) :
